@@ -72,8 +72,16 @@ type fileSpec struct {
 	ct          string // declared content type ("" = none)
 	errAt       int
 	st          *kernel.Stream
-	startAt     int // seekable source handed over positioned here (0 = plain source)
+	wrapName    string // non-empty: the source is wrapped in runtime.NamedReader under this name
+	startAt     int    // seekable source handed over positioned here (0 = plain source)
 	seekable    bool
+}
+
+func (f *fileSpec) sentName() string {
+	if f.wrapName != "" {
+		return f.wrapName
+	}
+	return f.name
 }
 
 type world struct {
@@ -197,6 +205,10 @@ func (w *world) WriteToRequest(req runtime.ClientRequest, _ strfmt.Registry) err
 			nrc = &simhttp.UploadFileCT{UploadFile: up, CT: f.ct}
 		} else if f.seekable {
 			nrc = &simhttp.SeekableUpload{UploadFile: up}
+		}
+		if f.wrapName != "" {
+			// the caller renames an already named reader: the name given to NamedReader is the one that counts
+			nrc = runtime.NamedReader(f.wrapName, nrc)
 		}
 		byField[f.field] = append(byField[f.field], nrc)
 	}
@@ -350,6 +362,9 @@ func genWorld(tape *kernel.Tape, env *kernel.Env, idx int) (*world, bool) {
 				f.startAt = tape.Choose(len(f.data)+1, "start-offset")
 				st.Pos = f.startAt
 			}
+			if f.ct == "" && !f.seekable && tape.Bool(5, "renamed-with-NamedReader") {
+				f.wrapName = "renamed-" + genName(tape)
+			}
 			f.st = st
 			w.files = append(w.files, f)
 		}
@@ -384,6 +399,7 @@ func (prop) Run(t *testing.T, tape *kernel.Tape, sc kernel.Scenario) *kernel.Res
 		worlds[i], auths[i] = genWorld(tape, env, i)
 		sums = append(sums, worlds[i].summary())
 	}
+	defaultAuth := tape.Bool(3, "auth-writer-is-the-runtime-default")
 	res.Summary = strings.Join(sums, " || ")
 	if ncalls > 1 {
 		env.Fault("concurrent-calls")
@@ -412,6 +428,11 @@ func (prop) Run(t *testing.T, tape *kernel.Tape, sc kernel.Scenario) *kernel.Res
 				Reader: runtime.ClientResponseReaderFunc(func(r runtime.ClientResponse, _ runtime.Consumer) (any, error) { return r.Code(), nil })}
 			if auths[i] {
 				op.AuthInfo = w
+				if len(worlds) == 1 && defaultAuth {
+					// the same writer as the Runtime's default authentication instead of the operation's own
+					op.AuthInfo = nil
+					rt.DefaultAuthentication = w
+				}
 			}
 			k.Go(fmt.Sprintf("caller%d", i), func() {
 				submitPanic[i] = kernel.Catch(func() { _, submitErr[i] = rt.Submit(op) })
@@ -587,7 +608,7 @@ func (w *world) checkBody(ex *simhttp.Exchange) {
 				}
 				ctype = http.DetectContentType(head)
 			}
-			want = append(want, part{kind: "file", field: f.field, filename: filepath.Base(f.name), data: string(content), ctype: ctype})
+			want = append(want, part{kind: "file", field: f.field, filename: filepath.Base(f.sentName()), data: string(content), ctype: ctype})
 		}
 		sortParts(got)
 		sortParts(want)
